@@ -22,6 +22,7 @@ from ..patterns import (assigns_to, calls_in, check_no_arg_mutation, finfo,
 
 CO = 'enspara/tpt/core.py'
 HELPER = '_I_m_Q'
+SOL_SYM = 'SOLUTION_'
 
 EXPLANATION = (
     'Static decision of the structural necessary conditions of the committor '
@@ -206,6 +207,54 @@ def origin(fi, e):
         e = v
         seen += 1
     return e, True
+
+
+DENSE_FORMS = ['_X.toarray()', '_X.todense()', 'np.asarray(_X)', 'np.asarray(_X.todense())', 'np.asarray(_X.toarray())', '_X.A']
+
+
+def value_origin(fi, n, depth=8):
+    """The expression whose VALUE the Name use `n` denotes: single-definition
+    chains are followed, and so are container-only conversions of a name onto
+    itself (`if issparse(B): B = B.toarray()`): when all reaching definitions
+    but one are such conversions of the value made by the remaining one, the
+    element values are those of the remaining definition.  Returns the
+    expression reached (a Name when it cannot be followed further)."""
+    from ..match import match
+    e = n
+    for _ in range(depth):
+        if not (isinstance(e, ast.Name) and isinstance(e.ctx, ast.Load)):
+            return e
+        try:
+            defs = fi.defs_of_use(e)
+        except Exception:
+            return e
+        if not defs or 'PARAM' in defs or 'UNBOUND' in defs or fi._mutated_in_place(e.id):
+            return e
+        conv, base = [], []
+        for d in defs:
+            v = fi.def_value(d, e.id) if isinstance(d, (ast.Assign, ast.AnnAssign)) else None
+            if v is None:
+                return e
+            inner = None
+            for p in DENSE_FORMS:
+                b = match(p, v, canonical=False)
+                if b is not None and isinstance(b['_X'], ast.Name) and b['_X'].id == e.id:
+                    inner = b['_X']
+                    break
+            if inner is not None:
+                conv.append((d, inner))
+            else:
+                base.append((d, v))
+        if len(base) != 1:
+            return e
+        d0 = base[0][0]
+        convs = {c[0] for c in conv}
+        for d, inner in conv:
+            di = fi.defs_of_use(inner)
+            if d0 not in di or not di <= ({d0} | convs):
+                return e
+        e = base[0][1]
+    return e
 
 
 def _binders(fi, name):
@@ -612,24 +661,7 @@ def d3_committors(ck, mod):
     Cn = r[0].value.id
     C0, Cnames, Cd = alias_class(mod, fn, fi, Cn)
     cm = [Cd] if Cd is not None else []
-    if len(cm) != 1 or not isinstance(cm[0], ast.Assign) or fi.def_value(cm[0], C0) is None:
-        ck.missing(rule + '.sum', 'single definition of the returned array %s' % Cn)
-        return
-    cv = fi.def_value(cm[0], C0)
     SOL = 'SOLUTION_'
-    st = fi.xu(solve, stop=stop)
-    solnames = set()
-    for n in ast.walk(cv):
-        if isinstance(n, ast.Name) and isinstance(n.ctx, ast.Load):
-            e, ok = origin(fi, n)
-            if ok and e is solve:
-                solnames.add(n.id)
-
-    def mark(n):
-        if isinstance(n, ast.expr) and (u(n) == st or (isinstance(n, ast.Name) and n.id in solnames)):
-            return _sym(SOL)
-        return n
-    X = _rewrite(xp(fi, mod, cv, stop=stop), mark)
     Rs = sorted(Rnames) if R else []
     ks = ['%s.shape[0]' % sinks, 'len(%s)' % sinks, '%s.size' % sinks, '-1'] + ['%s.shape[1]' % x for x in Rs]
     # a wrong row count makes reshape raise, so only the column count (and
@@ -641,16 +673,179 @@ def d3_committors(ck, mod):
             for rs in ('%s.reshape(%s, %s)', '%s.reshape((%s, %s))', 'np.reshape(%s, (%s, %s))'):
                 for sm in ('.sum(axis=1)', '.sum(1)', '.sum(axis=-1)', '.sum(-1)'):
                     forms.append(rs % (SOL, n, k) + sm)
-    v = classify(X, forms, scope={tprob, sinks, SOL} | set(Rs))
+    scope = {tprob, sinks, SOL} | set(Rs)
+    pin_ok = 'sinks are pinned to exactly 1 after the sum'
+    pin_bad = ('after summing the per-sink columns every sink row holds n_sinks (each column of a sink row of R '
+               'is 1): `committors[sinks] = 1.0` is required for more than one sink')
+    if len(cm) != 1 or not isinstance(cm[0], ast.Assign) or fi.def_value(cm[0], C0) is None:
+        loop = _column_fold(ck, rule + '.sum', mod, fn, fi, F, Cn, solve, sinks, stop, forms, scope, ks)
+        if loop is None:
+            ck.missing(rule + '.sum', 'single definition of the returned array %s' % Cn)
+            return
+        _pins(ck, rule + '.final-pin', mod, fn, fi, F, Cn, {sinks: 1}, stop, r[0], pin_ok, pin_bad,
+              construct_missing='committors[sinks] = 1.0', also={sources: 0}, after=loop, names={Cn})
+        return
+    cv = fi.def_value(cm[0], C0)
+    st = fi.xu(solve, stop=stop)
+    solnames = set()
+    for n in ast.walk(cv):
+        if isinstance(n, ast.Name) and isinstance(n.ctx, ast.Load):
+            e, ok = origin(fi, n)
+            if (ok and e is solve) or value_origin(fi, n) is solve:
+                solnames.add(n.id)
+
+    def mark(n):
+        if isinstance(n, ast.expr) and (u(n) == st or (isinstance(n, ast.Name) and n.id in solnames)):
+            return _sym(SOL)
+        return n
+    X = _rewrite(xp(fi, mod, cv, stop=stop), mark)
+    v = classify(X, forms, scope=scope)
     ck.decide(v, rule + '.sum', mod, cm[0], F, u(cm[0]),
               'probability of hitting ANY sink = sum over the per-sink columns',
               'committors must be B.reshape(n_states, n_sinks).sum(axis=1): the solver returns one column per sink '
               '(row-major (n_states, n_sinks)); another shape/axis mixes states and sinks')
-    _pins(ck, rule + '.final-pin', mod, fn, fi, F, Cn, {sinks: 1}, stop, r[0],
-                 'sinks are pinned to exactly 1 after the sum',
-                 'after summing the per-sink columns every sink row holds n_sinks (each column of a sink row of R '
-                 'is 1): `committors[sinks] = 1.0` is required for more than one sink', construct_missing='committors[sinks] = 1.0',
-                 also={sources: 0}, after=cm[0], names=Cnames)
+    _pins(ck, rule + '.final-pin', mod, fn, fi, F, Cn, {sinks: 1}, stop, r[0], pin_ok, pin_bad,
+          construct_missing='committors[sinks] = 1.0', also={sources: 0}, after=cm[0], names=Cnames)
+
+
+RESHAPE2 = ['_S.reshape(_N, _K)', '_S.reshape((_N, _K))', 'np.reshape(_S, (_N, _K))']
+
+
+def _solution_matrix(fi, e, solve):
+    """`e` denotes the solver's result reshaped to two dimensions: returns the
+    (rows, columns) expressions of the reshape, else None."""
+    from ..match import match
+    v = value_origin(fi, e)
+    for p in RESHAPE2:
+        b = match(p, v, canonical=False)
+        if b is not None:
+            s = b['_S']
+            if s is solve or value_origin(fi, s) is solve:
+                return b['_N'], b['_K']
+    return None
+
+
+def _arith(n):
+    """np.add/np.subtract/np.multiply with two operands as operators."""
+    if isinstance(n, ast.Call) and len(n.args) == 2 and not n.keywords:
+        op = {'np.add': ast.Add, 'np.subtract': ast.Sub, 'np.multiply': ast.Mult}.get(call_name(n) or '')
+        if op is not None:
+            return ast.BinOp(left=n.args[0], op=op(), right=n.args[1])
+    return n
+
+
+def _column_fold(ck, rule, mod, fn, fi, F, Cn, solve, sinks, stop, forms, scope, ks):
+    """The returned array `Cn` is accumulated over the per-sink columns of the
+    solution in a loop (`acc = M[:, 0]; for k in range(1, K): acc = f(acc,
+    M[:, k])`, or from zeros over range(K)).  Located by role: Cn is bound
+    exactly twice, once before a top-level `for <k> in range(...)` loop and
+    once directly in its body from itself.  The obligation is that the fold
+    computes the plain SUM of all columns (absorption in different sink states
+    are mutually exclusive events): the step, lifted over the symbols ACC_
+    (the accumulator) and COL_ (column k of the reshaped solution), must equal
+    ACC_ + COL_; the start value and the range must cover every column once.
+    Returns the loop statement when the construct was located (verdicts are
+    reported here), None when the definitions of Cn are not such a fold."""
+    b = _binders(fi, Cn)
+    if len(b) != 2 or 'PARAM' in b:
+        return None
+    inner = [s for s in b if _in_loop(mod, fn, s)]
+    outer = [s for s in b if s not in inner]
+    if len(inner) != 1 or len(outer) != 1:
+        return None
+    step, init = inner[0], outer[0]
+    L = mod.parent.get(step)
+    if not (isinstance(L, ast.For) and step in L.body and not L.orelse and isinstance(L.target, ast.Name)) or _in_loop(mod, fn, L):
+        return None
+    if any(isinstance(x, (ast.Break, ast.Continue, ast.Return)) for x in _nodes(L.body)):
+        return None
+    kv = L.target.id
+    it = L.iter
+    if len(_binders(fi, kv)) != 1 or not (isinstance(it, ast.Call) and call_name(it) == 'range' and not it.keywords
+                                          and 1 <= len(it.args) <= 2):
+        return None
+    if not isinstance(init, ast.Assign) or fi.def_value(init, Cn) is None or not fi.cfg.dominates(init, L):
+        return None
+    if isinstance(step, ast.AugAssign) and isinstance(step.target, ast.Name):
+        E = ast.BinOp(left=_sym('ACC_'), op=step.op, right=step.value)
+    elif isinstance(step, ast.Assign) and fi.def_value(step, Cn) is not None:
+        E = fi.def_value(step, Cn)
+    else:
+        return None
+    mats = []
+
+    def lift(e, d=6):
+        if isinstance(e, ast.Name) and isinstance(e.ctx, ast.Load):
+            if e.id == 'ACC_':
+                return _sym('ACC_')
+            if e.id == Cn:
+                return _sym('ACC_') if fi.defs_of_use(e) == {init, step} else _sym(Cn)
+            v = fi.temp_value(e) if d > 0 and e.id not in stop else None
+            return lift(v, d - 1) if v is not None else _sym(e.id)
+        if not isinstance(e, ast.AST) or isinstance(e, (ast.expr_context, ast.operator, ast.unaryop, ast.boolop, ast.cmpop)):
+            return e
+        if isinstance(e, ast.Subscript) and isinstance(e.slice, ast.Tuple) and len(e.slice.elts) == 2 and _full(e.slice.elts[0]) \
+                and isinstance(e.slice.elts[1], ast.Name) and e.slice.elts[1].id == kv:
+            m = _solution_matrix(fi, e.value, solve)
+            if m is not None:
+                mats.append(m)
+                return _sym('COL_')
+        new = type(e)()
+        for f in e._fields:
+            val = getattr(e, f, None)
+            if isinstance(val, list):
+                setattr(new, f, [lift(x, d) for x in val])
+            elif isinstance(val, ast.AST):
+                setattr(new, f, lift(val, d))
+            else:
+                setattr(new, f, val)
+        return new
+    X = _rewrite(canon(ast.fix_missing_locations(ast.Expression(body=lift(E))).body), _arith)
+    sc = {'ACC_', 'COL_'}
+    if not mats or not _closed_over(X, sc) or not names_loaded(X) <= sc:
+        ck.missing(rule, 'loop that accumulates the returned array %s: the step is not a function of the accumulator and column '
+                   '`%s` of the reshaped solution only: %s' % (Cn, kv, u(step)[:120]))
+        return L
+    # the matrix whose columns are folded: the solution in (n_states, n_sinks) layout
+    for N, K in mats:
+        synth = ast.parse('%s.reshape(%s, %s).sum(axis=1)' % (SOL_SYM, fi.xu(N, stop=stop), fi.xu(K, stop=stop)), mode='eval').body
+        v = classify(synth, forms, scope=scope)
+        ck.decide(v, rule, mod, fi.stmt(N), F, 'reshape(%s, %s)' % (u(N), u(K)),
+                  'the solution is laid out as one column per sink',
+                  'the solver returns one column per sink (row-major (n_states, n_sinks)): another shape mixes states and sinks')
+    try:
+        same = symx.equal(symx.lift(X), symx.parse('ACC_ + COL_'))
+    except AnalysisIncomplete:
+        same = False        # a pure function of accumulator and column outside +,-,*,/ : not their sum
+    ck.check(bool(same), rule, mod, step, F, u(step),
+             'probability of hitting ANY sink = sum over the per-sink columns (accumulated column by column)',
+             'the per-sink columns of the solution must be ADDED: absorption in different sink states are mutually exclusive '
+             'events, P(any sink) = sum_k B[:, k]; this step combines accumulator and column as `%s`, which is a different '
+             'function (it changes the committors of intermediate states as soon as there are two sinks)' % u(X)[:120])
+    # coverage: start value and range visit every column exactly once
+    iv = fi.def_value(init, Cn)
+    if isinstance(iv, ast.Call) and isinstance(iv.func, ast.Attribute) and iv.func.attr == 'copy' and not iv.args and not iv.keywords:
+        iv = iv.func.value
+    kind = None
+    if isinstance(iv, ast.Subscript) and isinstance(iv.slice, ast.Tuple) and len(iv.slice.elts) == 2 and _full(iv.slice.elts[0]) \
+            and const_value(fi.expand(iv.slice.elts[1])) == 0 and _solution_matrix(fi, iv.value, solve) is not None:
+        kind = 1            # starts from column 0: the loop has to begin at 1
+    elif match_any(['np.zeros(_N)', 'np.zeros((_N,))', 'np.zeros(_N, dtype=float)', 'np.zeros(_N, float)'], fi.expand(iv)) is not None:
+        kind = 0
+    lo = const_value(fi.expand(it.args[0])) if len(it.args) == 2 else 0
+    hi = it.args[-1]
+    ht = fi.xu(hi, stop=stop)
+    hi_ok = ht in [k for k in ks if k != '-1'] or any(ht == fi.xu(K, stop=stop) and ht != '-1' for _, K in mats) or (
+        isinstance(hi, ast.Subscript) and const_value(hi.slice) == 1 and isinstance(hi.value, ast.Attribute)
+        and hi.value.attr == 'shape' and _solution_matrix(fi, hi.value.value, solve) is not None)
+    if kind is None or isinstance(lo, bool) or not isinstance(lo, int) or not (hi_ok or _closed_over(canon(fi.expand(hi, stop=stop)), scope)):
+        ck.missing(rule, 'start value / range of the column fold: %s; %s' % (u(init)[:80], u(it)[:60]))
+    else:
+        ck.check(lo == kind and hi_ok, rule, mod, L, F, '%s; for %s in %s' % (u(init), kv, u(it)),
+                 'every sink column enters the sum exactly once',
+                 'the fold must visit every sink column exactly once (start from column 0 and loop over 1..n_sinks-1, or start '
+                 'from zeros and loop over all n_sinks columns)')
+    return L
 
 
 def _pins(ck, rule, mod, fn, fi, function, arr, want, stop, before, ok_txt, bad_txt, construct_missing=None, also=None, after=None,
@@ -745,6 +940,7 @@ def d_mfpts(ck, mod):
     ck.analysed(mod, fn)
     fi = finfo(mod, fn)
     tprob, sinks, pops, lag = params(fn)[:4]
+    d5_default_populations(ck, mod, fn, fi, F, tprob, pops)
     # D7 mode dispatch
     imqs = [c for c in calls_in(fn) if call_name(c) == HELPER]
     invs = [c for c in calls_in(fn) if (call_name(c) or '').split('.')[-1] in ('inv', 'pinv')]
@@ -853,6 +1049,103 @@ def d_mfpts(ck, mod):
                  'lagtime is used elsewhere in mfpts (non-linear dependence on the lag time)')
     d5_all_pairs(ck, mod, fn, fi, F, node, results['all-pairs'], tprob, pops, lag)
     d3_sink_set(ck, mod, fn, fi, F, node, sset, results['sink-set'], tprob, sinks, pops, lag)
+
+
+STATIONARY = 'eq_probs'
+# np.linalg / scipy.linalg routines that are finite algebraic expressions of
+# their operands (no eigen-decomposition, no linear solve, no determinant)
+LINALG_FINITE = ('matrix_power', 'multi_dot', 'norm')
+
+
+def _none_test(fi, test, name):
+    """True / False when `test` is `<name> is None` / `<name> is not None`."""
+    t = canon(fi.expand(test, stop=(name,)))
+    if isinstance(t, ast.Compare) and len(t.ops) == 1 and isinstance(t.left, ast.Name) and t.left.id == name \
+            and isinstance(t.comparators[0], ast.Constant) and t.comparators[0].value is None:
+        if isinstance(t.ops[0], ast.Is):
+            return True
+        if isinstance(t.ops[0], ast.IsNot):
+            return False
+    return None
+
+
+def _stationary_names(mod):
+    """Local names under which the library's stationary-distribution routine
+    (enspara.msm eq_probs) is imported into the module."""
+    out = set()
+    for n in ast.walk(mod.tree):
+        if isinstance(n, ast.ImportFrom):
+            for a in n.names:
+                if a.name == STATIONARY:
+                    out.add(a.asname or a.name)
+    return out - set(mod.functions)
+
+
+def d5_default_populations(ck, mod, fn, fi, F, tprob, pops):
+    """The all-pairs formula needs the STATIONARY distribution of tprob.  When
+    the caller passes none (the parameter defaults to None) the value computed
+    in its place - located by role: what is bound to the populations name
+    under the condition `populations is None` - must be the library's
+    eigenvector routine applied to the transition matrix.  A closed-form numpy
+    expression of tprob without an eigen-decomposition or a linear solve (a
+    finite matrix power, row sums, a uniform vector) is a different function
+    of tprob: it equals the stationary vector only for special chains.  An
+    expression that goes through an eigen-/linear solver or an unknown helper
+    cannot be decided here."""
+    rule = 'C07.D5.populations-default'
+    a = fn.args
+    names = [x.arg for x in a.args]
+    dflt = dict(zip(names[len(names) - len(a.defaults):], a.defaults)) if a.defaults else {}
+    d = dflt.get(pops)
+    if not (isinstance(d, ast.Constant) and d.value is None):
+        return              # populations are mandatory (or have a non-None default): no default computation
+    cands = []
+    for n in walk_local(fn):
+        if isinstance(n, ast.If):
+            pol = _none_test(fi, n.test, pops)
+            if pol is None:
+                continue
+            t_list, f_list = branches(mod, n)
+            for s in _nodes(t_list if pol else f_list):
+                if isinstance(s, (ast.Assign, ast.AnnAssign)) and fi.def_value(s, pops) is not None \
+                        and not isinstance(fi.def_value(s, pops), ast.IfExp):
+                    cands.append((s, fi.def_value(s, pops)))
+        elif isinstance(n, ast.IfExp):
+            pol = _none_test(fi, n.test, pops)
+            if pol is None:
+                continue
+            val, other = (n.body, n.orelse) if pol else (n.orelse, n.body)
+            if fi.xu(other, stop=(pops,)) == pops:
+                cands.append((fi.stmt(n), val))
+    if not cands:
+        ck.missing(rule, 'the value that replaces `%s` when it is None (the equilibrium distribution of %s)' % (pops, tprob))
+        return
+    stat = _stationary_names(mod)
+    for site, val in cands:
+        X = xp(fi, mod, val, stop=(tprob, pops))
+        cn = call_name(X) if isinstance(X, ast.Call) else None
+        if cn and (cn in stat or (cn.split('.')[-1] == STATIONARY and '.' in cn)):
+            a0 = arg_or_kw(X, 0, 'T')
+            if a0 is not None and u(a0) == tprob:
+                ck.ok(rule, mod, site, u(site), 'default populations = stationary distribution of the transition matrix (eq_probs)')
+                continue
+            if a0 is not None and _closed_over(a0, {tprob}):
+                ck.bad(rule, mod, site, F, u(site), 'the default populations must be the stationary distribution of the transition '
+                       'matrix itself: eq_probs is applied to `%s`' % u(a0)[:80])
+                continue
+            ck.missing(rule, 'argument of the stationary-distribution routine: %s' % u(site)[:120])
+            continue
+        solver = [c for c in ast.walk(X) if isinstance(c, ast.Call) and 'linalg' in (call_name(c) or '').split('.')
+                  and (call_name(c) or '').split('.')[-1] not in LINALG_FINITE]
+        if _closed_over(X, {tprob}) and not solver:
+            ck.bad(rule, mod, site, F, u(site),
+                   'when no populations are passed the all-pairs formula needs the stationary distribution of %s (left Perron '
+                   'eigenvector, eq_probs(%s)); `%s` is a closed-form expression of %s without an eigen-decomposition or linear '
+                   'solve: a finite power / sum / constant vector equals the stationary distribution only for special chains '
+                   '(not for periodic or slowly mixing ones), so the all-pairs table no longer agrees with the single-sink solve'
+                   % (tprob, tprob, u(X)[:100], tprob))
+        else:
+            ck.missing(rule, 'how the default populations are computed from %s: %s' % (tprob, u(site)[:120]))
 
 
 def d5_all_pairs(ck, mod, fn, fi, F, node, results, tprob, pops, lag):
